@@ -152,6 +152,7 @@ def verify(interp, target, timeout_ms=10000, verbose=False, only=None):
           except PyRaise as pr: outcome = ("raise", pr)
           except PreFailed as pf: outcome = ("prefail", pf)
           except PathEnd: outcome = ("pathend", None)
+          except RestartPath: paths.append(dec); continue          # same path again, now with the contract applied where inlining the callee's body failed
           paths += interp.pending; npaths += 1
           pc = list(interp.pc) + list(A.SIDE)
           if smt.satisfiable(pc) == z3.unsat: pruned += 1; continue        # infeasible path (pruned, counted)
